@@ -1,8 +1,16 @@
 // C10 implementation driver: path decomposition views and queries of zix/path.h.
-// cases:  P <hex>  (path bytes; placed in an exact-size heap block so ASan sees any read outside
-//                   the NUL-terminated input)      N  (NULL: queries only, as path.h allows)
-// line:   rn= rd= rp= rel= par= fn= st= ex= q=<10 bits> in=<8 bits> || rn=<off+len|static|ext+len> ...
+// cases:  P <hex>        path bytes, placed in an exact-size heap block so ASan sees any read outside
+//                        the NUL-terminated input
+//         N              NULL: queries only, as path.h allows
+//         Q <hex1> <hex2>  "same pointer, rewritten buffer": for every function f of path.h, inside ONE C
+//                        function: r1 = f(buf); the buffer is overwritten in place with the second string by
+//                        plain memcpy; r2 = f(buf).  Built with -O2, this shows a declaration that promises
+//                        more than the function keeps (e.g. __attribute__((const)) on a function that reads
+//                        the string: the compiler then merges the two calls and r2 answers for string 1).
+// record: rn= rd= rp= rel= par= fn= st= ex= q=<10 bits> in=<8 bits> || rn=<off+len|static|ext+len> ...
 // rd/rp/par are compared as PATHS: printed with every separator run collapsed to one '/'.
+// P prints one record, Q prints the record of the first calls (string 1) followed by the record of the
+// second calls (string 2): `obs1 obs2 || struct1 struct2`.
 #include "vcommon.h"
 
 #include <zix/path.h>
@@ -26,19 +34,137 @@ static const QueryFunc query_funcs[10] = {zix_path_has_root_path,      zix_path_
                                           zix_path_has_stem,           zix_path_has_extension,
                                           zix_path_is_absolute,        zix_path_is_relative};
 
-static void put_queries(const char* path)
+// is the view inside [base, base+len]?
+static bool inside(const char* base, size_t len, ZixStringView v)
 {
+  return v.data >= base && v.data <= base + len && v.length <= (size_t)(base + len - v.data);
+}
+
+// `base` is the pointer that was passed to the functions, `content` holds the len bytes it pointed to then
+static void put_obs(const char* base, const char* content, size_t len, const ZixStringView v[8], const bool q[10])
+{
+  for (int i = 0; i < 8; ++i) {
+    printf("%s=", view_names[i]);
+    if (v[i].length == 0) {
+      fputc('-', stdout);
+    } else if (!inside(base, len, v[i])) {
+      fputs("BAD", stdout); // not dereferenced
+    } else {
+      const char* const text = content + (v[i].data - base);
+      if (!as_path[i]) {
+        vputhex(stdout, (const unsigned char*)text, v[i].length);
+      } else {
+        for (size_t k = 0; k < v[i].length; ++k) {
+          if (!(text[k] == '/' && k > 0 && text[k - 1] == '/')) {
+            printf("%02x", (unsigned char)text[k]);
+          }
+        }
+      }
+    }
+    fputc(' ', stdout);
+  }
   fputs("q=", stdout);
   for (int i = 0; i < 10; ++i) {
-    fputc(query_funcs[i](path) ? '1' : '0', stdout);
+    fputc(q[i] ? '1' : '0', stdout);
+  }
+  fputs(" in=", stdout);
+  for (int i = 0; i < 8; ++i) {
+    fputc((v[i].length == 0 || inside(base, len, v[i])) ? '1' : '0', stdout);
   }
 }
 
-// is the view inside [path, path+len]?
-static bool inside(const char* path, size_t len, ZixStringView v)
+static void put_struct(const char* base, size_t len, const ZixStringView v[8])
 {
-  return v.data >= path && v.data <= path + len && v.length <= (size_t)(path + len - v.data);
+  for (int i = 0; i < 8; ++i) {
+    if (inside(base, len, v[i])) {
+      printf(" %s=%zu+%zu", view_names[i], (size_t)(v[i].data - base), v[i].length);
+    } else if (v[i].length == 0) {
+      printf(" %s=static", view_names[i]);
+    } else {
+      printf(" %s=ext+%zu", view_names[i], v[i].length);
+    }
+  }
 }
+
+static size_t unhex_into(const char* hex, char** out, size_t min_size)
+{
+  const size_t len = !strcmp(hex, "-") ? 0U : strlen(hex) / 2U;
+  char* const  s   = (char*)malloc((len + 1U > min_size) ? len + 1U : min_size);
+  for (size_t i = 0; i < len; ++i) {
+    s[i] = (char)(vhexval(hex[2 * i]) * 16 + vhexval(hex[2 * i + 1]));
+  }
+  s[len] = '\0';
+  *out   = s;
+  return len;
+}
+
+// ---- the rewritten-buffer probes: direct calls (so the declared attributes apply), both calls and the
+// ---- overwrite in one function, nothing in between but memcpy into the buffer
+typedef struct {
+  ZixStringView first;
+  ZixStringView second;
+} ViewPair;
+
+typedef struct {
+  bool first;
+  bool second;
+} BoolPair;
+
+#define VIEW_PROBE(fn)                                                                          \
+  static __attribute__((noinline)) ViewPair probe_##fn(                                         \
+    char* buf, const char* s1, size_t l1, const char* s2, size_t l2)                            \
+  {                                                                                             \
+    ViewPair r;                                                                                 \
+    memcpy(buf, s1, l1 + 1U);                                                                   \
+    r.first = fn(buf);                                                                          \
+    memcpy(buf, s2, l2 + 1U);                                                                   \
+    r.second = fn(buf);                                                                         \
+    return r;                                                                                   \
+  }
+
+#define BOOL_PROBE(fn)                                                                          \
+  static __attribute__((noinline)) BoolPair probe_##fn(                                         \
+    char* buf, const char* s1, size_t l1, const char* s2, size_t l2)                            \
+  {                                                                                             \
+    BoolPair r;                                                                                 \
+    memcpy(buf, s1, l1 + 1U);                                                                   \
+    r.first = fn(buf);                                                                          \
+    memcpy(buf, s2, l2 + 1U);                                                                   \
+    r.second = fn(buf);                                                                         \
+    return r;                                                                                   \
+  }
+
+VIEW_PROBE(zix_path_root_name)
+VIEW_PROBE(zix_path_root_directory)
+VIEW_PROBE(zix_path_root_path)
+VIEW_PROBE(zix_path_relative_path)
+VIEW_PROBE(zix_path_parent_path)
+VIEW_PROBE(zix_path_filename)
+VIEW_PROBE(zix_path_stem)
+VIEW_PROBE(zix_path_extension)
+BOOL_PROBE(zix_path_has_root_path)
+BOOL_PROBE(zix_path_has_root_name)
+BOOL_PROBE(zix_path_has_root_directory)
+BOOL_PROBE(zix_path_has_relative_path)
+BOOL_PROBE(zix_path_has_parent_path)
+BOOL_PROBE(zix_path_has_filename)
+BOOL_PROBE(zix_path_has_stem)
+BOOL_PROBE(zix_path_has_extension)
+BOOL_PROBE(zix_path_is_absolute)
+BOOL_PROBE(zix_path_is_relative)
+
+typedef ViewPair (*ViewProbe)(char*, const char*, size_t, const char*, size_t);
+typedef BoolPair (*BoolProbe)(char*, const char*, size_t, const char*, size_t);
+
+static const ViewProbe view_probes[8] = {
+  probe_zix_path_root_name,     probe_zix_path_root_directory, probe_zix_path_root_path,
+  probe_zix_path_relative_path, probe_zix_path_parent_path,    probe_zix_path_filename,
+  probe_zix_path_stem,          probe_zix_path_extension};
+static const BoolProbe bool_probes[10] = {
+  probe_zix_path_has_root_path,      probe_zix_path_has_root_name,     probe_zix_path_has_root_directory,
+  probe_zix_path_has_relative_path,  probe_zix_path_has_parent_path,   probe_zix_path_has_filename,
+  probe_zix_path_has_stem,           probe_zix_path_has_extension,     probe_zix_path_is_absolute,
+  probe_zix_path_is_relative};
 
 int main(void)
 {
@@ -50,54 +176,55 @@ int main(void)
   while (vgetline(&line, &cap)) {
     int n = vsplit(line, tok, 4);
     if (n == 1 && !strcmp(tok[0], "N")) {
-      put_queries(NULL);
+      fputs("q=", stdout);
+      for (int i = 0; i < 10; ++i) {
+        fputc(query_funcs[i](NULL) ? '1' : '0', stdout);
+      }
       fputc('\n', stdout);
     } else if (n == 2 && !strcmp(tok[0], "P")) {
-      const size_t len  = !strcmp(tok[1], "-") ? 0U : strlen(tok[1]) / 2U;
-      char* const  path = (char*)malloc(len + 1U); // exact size: bytes + NUL
-      for (size_t i = 0; i < len; ++i) {
-        path[i] = (char)(vhexval(tok[1][2 * i]) * 16 + vhexval(tok[1][2 * i + 1]));
-      }
-      path[len] = '\0';
-
+      char*        path = NULL;
+      const size_t len  = unhex_into(tok[1], &path, 0U); // exact size: bytes + NUL
       ZixStringView v[8];
+      bool          q[10];
       for (int i = 0; i < 8; ++i) {
         v[i] = view_funcs[i](path);
       }
-      for (int i = 0; i < 8; ++i) {
-        printf("%s=", view_names[i]);
-        if (v[i].length == 0) {
-          fputc('-', stdout);
-        } else if (!inside(path, len, v[i])) {
-          fputs("BAD", stdout); // not dereferenced
-        } else if (!as_path[i]) {
-          vputhex(stdout, (const unsigned char*)v[i].data, v[i].length);
-        } else {
-          for (size_t k = 0; k < v[i].length; ++k) {
-            if (!(v[i].data[k] == '/' && k > 0 && v[i].data[k - 1] == '/')) {
-              printf("%02x", (unsigned char)v[i].data[k]);
-            }
-          }
-        }
-        fputc(' ', stdout);
+      for (int i = 0; i < 10; ++i) {
+        q[i] = query_funcs[i](path);
       }
-      put_queries(path);
-      fputs(" in=", stdout);
-      for (int i = 0; i < 8; ++i) {
-        fputc((v[i].length == 0 || inside(path, len, v[i])) ? '1' : '0', stdout);
-      }
+      put_obs(path, path, len, v, q);
       fputs(" ||", stdout);
-      for (int i = 0; i < 8; ++i) {
-        if (inside(path, len, v[i])) {
-          printf(" %s=%zu+%zu", view_names[i], (size_t)(v[i].data - path), v[i].length);
-        } else if (v[i].length == 0) {
-          printf(" %s=static", view_names[i]);
-        } else {
-          printf(" %s=ext+%zu", view_names[i], v[i].length);
-        }
-      }
+      put_struct(path, len, v);
       fputc('\n', stdout);
       free(path);
+    } else if (n == 3 && !strcmp(tok[0], "Q")) {
+      char*        s1 = NULL;
+      char*        s2 = NULL;
+      const size_t l1 = unhex_into(tok[1], &s1, 0U);
+      const size_t l2 = unhex_into(tok[2], &s2, 0U);
+      char* const  buf = (char*)malloc(((l1 > l2) ? l1 : l2) + 1U);
+      ZixStringView v1[8], v2[8];
+      bool          q1[10], q2[10];
+      for (int i = 0; i < 8; ++i) {
+        const ViewPair r = view_probes[i](buf, s1, l1, s2, l2);
+        v1[i] = r.first;
+        v2[i] = r.second;
+      }
+      for (int i = 0; i < 10; ++i) {
+        const BoolPair r = bool_probes[i](buf, s1, l1, s2, l2);
+        q1[i] = r.first;
+        q2[i] = r.second;
+      }
+      put_obs(buf, s1, l1, v1, q1); // the first calls saw string 1 at buf
+      fputc(' ', stdout);
+      put_obs(buf, s2, l2, v2, q2); // the second calls saw string 2 at buf
+      fputs(" ||", stdout);
+      put_struct(buf, l1, v1);
+      put_struct(buf, l2, v2);
+      fputc('\n', stdout);
+      free(buf);
+      free(s1);
+      free(s2);
     } else {
       puts("?");
     }
